@@ -291,7 +291,11 @@ def in_iffxor(case):
     return any(o in ("b:iff", "b:xor") for o in F.ops(case["f"]))
 
 
-REGIONS = {"iffxor": in_iffxor}
+def in_risefall(case):
+    return any(o in ("t1:rise", "t1:fall") for o in F.ops(case["f"]))
+
+
+REGIONS = {"iffxor": in_iffxor, "risefall": in_risefall}
 
 
 def explore(ctx, rng, count):
